@@ -3004,6 +3004,11 @@ static int32_t parseGeneralNames(psPool_t *pool, const unsigned char **buf,
                 return -1;
             }
             activeName->oid = psMalloc(pool, activeName->oidLen);
+            if (activeName->oid == NULL)
+            {
+                psError("Memory allocation error: activeName->oid\n");
+                return PS_MEM_FAIL;
+            }
             if ((uint32) (extEnd - p) < activeName->oidLen)
             {
 
